@@ -19,6 +19,11 @@ def obligations(tier):
         obs.append(Ob(f"C05.lines/{name}", "pre", "c_lines", {"VF_T": ti, "VF_NBREAK": 2 if tier == "quick" else 3}, t, FN_PRE,
                       "line breaks at up to 2 [thorough 3] token gaps (symbolic positions), LF or CRLF line ends (symbolic), continuation indent 0/2/4 blanks, optional blank line; same statement as the one-line spelling",
                       known="quote-at-line-start"))
+    for semi in (0, 1):
+      for l4 in ((1,) if tier == "quick" else (0, 1, 2, 3)):
+        obs.append(Ob(f"C05.lines/four-statements/{'semicolons' if semi else 'unterminated'}/last-layout={l4}", "pre", "c_layout3", {"VF_L3_SEMI": semi, "VF_L3_L4": l4}, 600 if tier == "quick" else 1800, FN_PRE,
+                  "four CREATE TABLE statements, the first three in any of 4 layouts (one line, '(' on the CREATE line + one column per line, '(' on its own line, leading commas), terminated by ';' or only by the "
+                  "next CREATE line (fixed per obligation), with / without blank lines between them, LF / CRLF - symbolic (256 scripts per obligation): the parser is handed the four statements of the one-line spelling"))
     obs.append(Ob("C05.crlf/parse_from_file-text-mode", "misc", "c_plumb", {}, 200, ["simple_ddl_parser/ddl_parser.py:parse_from_file"],
                   "file input is read in text mode with universal newlines (mode 'r', no newline= argument): CRLF files reach the parser as LF text; replay parses a real CRLF file"))
     obs.append(Ob("C05.case/statements", "pipe", "c_case_stmt", {}, 300 if tier == "quick" else 900,
